@@ -95,6 +95,54 @@ def run_history(rec, pair, hist, k0):
     return a, rec.n
 
 
+def concurrent_sessions(rec, rounds, nthreads=4):
+    """nthreads Python threads, each with its own session of a different kind, send (and sometimes receive) at the
+    same time; the Rust send/receive paths run with the GIL released, so they really share the buffer pool."""
+    import threading
+    std = scripts.std_cfgs()
+    kinds = ["v2c", "v3-md5-des", "v1", "v3-sha1-aes"]
+    lock = threading.Lock()
+
+    class LockedRec:
+        def __init__(self, inner):
+            self.inner = inner
+
+        @property
+        def n(self):
+            return self.inner.n
+
+        def emit(self, e):
+            with lock:
+                self.inner.emit(e)
+    lrec = LockedRec(rec)
+    a = rec.n
+    sessions = [rawdrv.RawSession(lrec, std[kinds[i % len(kinds)]], sid=i + 1) for i in range(nthreads)]
+    barrier = threading.Barrier(nthreads)
+
+    def work(i):
+        s = sessions[i]
+        cfg = s.cfg
+        agent = ag.Agent()
+        barrier.wait()
+        for j in range(rounds):
+            n = [1, 3, 40, 2, 150, 1][(i + j) % 6]
+            oids = ["1.3.6.1.4.1.%d.%d" % (1000 + i, 100000 + j * 7 + k) for k in range(n)]
+            op = "get" if n == 1 else "get_many"
+            w, exc = s.send(op, oids)
+            if w is not None and (i + j) % 3 == 0:
+                req = ag.Request(cfg, w)
+                s.inject(agent.reply(cfg, req, [(bytes(nm), ("int", j)) for nm in req.names[:2]]))
+                s.recv(op)
+    ths = [threading.Thread(target=work, args=(i,)) for i in range(nthreads)]
+    for t in ths:
+        t.start()
+    for t in ths:
+        t.join()
+    for s in sessions:
+        s.close()
+    return a, rec.n
+
+
 async def fetch_policy(rec):
     """fetch() through the real SnmpSession: GetBulk on v2c/v3 with bulk allowed, GetNext otherwise"""
     std = scripts.std_cfgs()
@@ -129,7 +177,7 @@ def run(tier):
     chk.rule = ("every history of Pool.tla of length 2 (thorough: 3, sampled) over 2 sessions x 5 operations x 6 fates on real socket pairs of different versions; "
                 "seeded random calls; fetch() policy through the real clients; every emitted datagram is judged; distinct = (session pair, history) / datagram; "
                 "non-trivial = history in which an earlier call used the shared pool before the judged request")
-    res = mc_pool(3 if not thorough else 4)
+    res = mc_pool(2 if not thorough else 4)
     tlc.require_ok(res, "MC_Pool")
     tlc.require_coverage(res, ["Call"], "MC_Pool")
     chk.add_tlc(res, "MC_Pool")
@@ -176,6 +224,32 @@ def run(tier):
         runs.append((a, rec.n, dict(kind="random", cfg=cn, seed=SEED, index=i)))
         chk.case(("random", cn, i), n=25)
     runs += asyncio.run(fetch_policy(rec))
+    # the configured user survives a failed discovery that is retried (every later request goes out under it)
+    from checks import c13
+    k = 0
+    for given in (False,):
+        for auth, priv, kt in (("md5", "none", "password"), ("sha1", "aes", "master"), ("none", "none", "password")):
+            for calls in (["enter", "enter", "get", "get_many"], ["enter", "refresh", "get"]):
+                for drop_at in (0, 1):
+                    k += 1
+                    cfg = c13.make_cfg(auth, priv, kt, c13.ENGINES["A17"], 700 + k)
+                    plan = [("reply", "A17", (i + 1) % len(c13.CLOCKS)) for i in range(8)]
+                    plan[drop_at] = "drop"
+                    if k % 2:
+                        a, b = c13.run_sync(rec, cfg, given, calls, plan)
+                    else:
+                        a, b = asyncio.run(c13.run_async(rec, cfg, given, calls, plan))
+                    runs.append((a, b, dict(kind="retry-after-failed-discovery", auth=auth, priv=priv, calls=calls, drop_at=drop_at)))
+                    chk.case(("retry", auth, priv, tuple(calls), drop_at))
+    # concurrency: PoolConc.tla at design level, four threads sharing the pool for real
+    pres = tlc.run_tlc("PoolConc.tla", "PoolConc.cfg", workers=4, timeout=900)
+    tlc.require_ok(pres, "PoolConc")
+    tlc.require_coverage(pres, ["Acquire", "Use", "Release"], "PoolConc")
+    chk.add_tlc(pres, "PoolConc (3 threads x 3 operations)")
+    for r_ in range(4 if not thorough else 40):
+        a, b = concurrent_sessions(rec, 20 if not thorough else 60)
+        runs.append((a, b, dict(kind="concurrent", round=r_)))
+        chk.case(("concurrent", r_), n=100)
     rec.close()
     nd = sum(1 for e in rec.events if e["ev"] == "Send" and e.get("wire"))
     print("  %d runs, %d datagrams judged, %d events" % (len(runs), nd, rec.n), flush=True)
